@@ -92,7 +92,11 @@ CLAIMS = {
             'flags, MUL / DIV with #DE, a lone REX.W prefix and the rel32 jump inside the sequence, instruction lengths = the proved encodings, C03_muldiv_bytes) ends with the ISA '
             'value in the destination, rax / rdx / the stack restored, only rcx clobbered, and never faults; theorems C03_byte_swaps / C03_wide_load: le / be at 16, 32, 64 bits (and, mov, '
             'rol16 + and, bswap) and lddw leave the ISA value in the destination and touch nothing else; C03_epilogue: the epilogue returns eBPF r0 in rax with the caller\'s rsp, rbp, '
-            'rbx, r13-r15 (prologue: C09; helper calls: C08; local calls: C07). Searched, not proved: the CPU executing the bytes '
+            'rbx, r13-r15 (prologue: C09; helper calls: C08; local calls: C07). Composition (JitStep.v, JitRun.v): C03_step_simulates -- with eBPF register k in x86 register '
+            'REGISTER_MAP[k] and R10 = packet address, the sequence emitted for any accepted instruction other than a call (jit_exec: the regenerated arms run on X86Sem / X86Seq, '
+            'registers taken modulo 2^64 between sequences) ends, whenever the ISA step succeeds, at the ISA next pc with the ISA memory in a related register file; '
+            'C03_run_refines -- the code of every accepted program without calls returns the ISA value and leaves the ISA memory for every input, budget and content of the '
+            'unmapped / unwritten registers; jit_steps is evaluated inside Coq against the real JIT on the raw VM on every run. Searched, not proved: the CPU executing the bytes '
             'and the CPU itself, by executing compiled '
             'code in a child process against the interpreter on a corpus of ~8000 programs built to cover every opcode x every destination/source register pair x '
             'boundary immediates and displacements x control-flow shapes x program lengths above 65535 x 4 VM kinds (about 14000 runs), plus the C07 call graphs. '
@@ -126,8 +130,9 @@ CLAIMS = {
             'records for each jump and local call (expression regenerated from jit.rs) is an instruction start of the program, so resolve_jumps\' indexing '
             'pc_locs[target as usize] is inside the nslots+1 entries allocated and hits a filled entry; C12_register_map: the register map is injective and avoids '
             'RCX/R10/R11/RSP; C12_cranelift_blocks_registered / C12_cranelift_targets_total: Cranelift registers blocks for exactly the instructions whose arm looks one up (every jump, '
-            'exit, tail call) and on an accepted program the target pc conversion never panics. The byte emission / two-pass sizing and Cranelift\'s builder are not modelled: verifier-accepted corpora (random well-formed streams, every '
-            'opcode with extreme operands, up to 70000 instructions quick / 999999 thorough, far jumps, 3 helper sets) are compiled twice by both compilers in a child '
+            'exit, tail call) and on an accepted program the target pc conversion never panics; C12_jit_emit_fits: the assertion emit_bytes! makes in the writing pass (regenerated) holds for every write inside the length '
+            'the sizing pass reached, with the buffer size JitMemory::new computes -- an image filling its pages exactly included. That both passes emit the same bytes, and Cranelift\'s builder, are not modelled: verifier-accepted corpora (random well-formed streams, every '
+            'opcode with extreme operands, up to 70000 instructions quick / 999999 thorough, far jumps, images of every length around the page boundaries, 3 helper sets) are compiled twice by both compilers in a child '
             'process and must give OK or ERR both times. This search found the Cranelift jump-to-first-instruction panic (fixed: a516a8e).',
             'Only the bookkeeping logic is proved; panics / overruns elsewhere are searched for, not excluded.'),
     'C13': ('proof', 'Theorem C13_text: every text in the documented syntax -- mnemonic, white space, operands separated by `,` + any white space, numbers with optional '
